@@ -1,42 +1,34 @@
-// C20, part 2c: uniform_real and normal (bit-exact transparency), float / double / strong typedef.
-#include "C20_common.hpp"
+// C20, part 2c: uniform_real (value-exact transparency) over float / double / long double and
+// strong typedefs of double / long double; parameters include values that are not representable
+// in a narrower floating point type.
+#include "C20_real.hpp"
 
-#include <fcppt/random/distribution/parameters/normal.hpp>
 #include <fcppt/random/distribution/parameters/uniform_real.hpp>
 
 namespace
 {
 using namespace c20;
 
-FCPPT_MAKE_STRONG_TYPEDEF(double, st_double);
-
-// ------------------------------------------------------------------ real-valued distributions
-struct real_pair
-{
-  double x, y;
-};
-
 std::vector<real_pair> uniform_real_params()
 {
   std::vector<real_pair> r;
-  double const grid[] = {-8., -1., -0.5, 0., 0.25, 1., 3., 8.};
-  for (double a : grid)
-    for (double b : grid)
+  ld const grid[] = {-8., -1., -0.5, 0., 0.25, 1., 3., 8.};
+  for (ld a : grid)
+    for (ld b : grid)
       if (a < b)
         r.push_back({a, b});
   r.push_back({0., 1e30});
   r.push_back({-1e-30, 1e-30});
   r.push_back({1., 1.0000001});
   r.push_back({-1e6, 1e6});
-  return r;
-}
-
-std::vector<real_pair> normal_params()
-{
-  std::vector<real_pair> r;
-  for (double m : {-2., 0., 0.5, 1e6})
-    for (double s : {1e-3, 0.25, 1., 5.})
-      r.push_back({m, s});
+  // not representable in double (for float / double these are rounded by the harness itself
+  // before they reach either side; pairs that collapse to a == b are skipped)
+  r.push_back({nr_tenth, nr_seven_tenths});
+  r.push_back({-nr_third, nr_third});
+  r.push_back({1., nr_one_plus});
+  r.push_back({0., nr_big});
+  r.push_back({nr_tenth, 1.});
+  r.push_back({-nr_big, nr_seven_tenths});
   return r;
 }
 
@@ -55,7 +47,7 @@ template <class E, class R> void uniform_real_family(char const *rname)
       return;
     base const a = static_cast<base>(pr.x), b = static_cast<base>(pr.y);
     if (!(a < b))
-      continue; // not distinct in float
+      continue; // not distinct in this type
     // the other parameter set (stored while drawing with per-call parameters)
     std::size_t kq = (k + 5) % params.size();
     while (!(static_cast<base>(params[kq].x) < static_cast<base>(params[kq].y)))
@@ -65,9 +57,8 @@ template <class E, class R> void uniform_real_family(char const *rname)
     {
       for (int reset_at : {-1, 3})
       {
-        if (!vrt::begin_text(fn, vrt::fmt("%s(min=%.9g, sup=%.9g, seed=%s%s)", nm.c_str(), static_cast<double>(a),
-                                          static_cast<double>(b), str128(static_cast<i128>(seed)).c_str(),
-                                          reset_at >= 0 ? ", reset() after 3 draws" : "")))
+        if (!vrt::begin_text(fn, vrt::fmt("%s(min=%s, sup=%s, seed=%s%s)", nm.c_str(), ldstr(a).c_str(), ldstr(b).c_str(),
+                                          str128(static_cast<i128>(seed)).c_str(), reset_at >= 0 ? ", reset() after 3 draws" : "")))
           continue;
         vrt::nontrivial(true);
         vrt::maybe_sample();
@@ -84,68 +75,66 @@ template <class E, class R> void uniform_real_family(char const *rname)
   }
 }
 
-template <class E, class R> void normal_family(char const *rname)
+// parameters -> std param_type -> parameters is the identity, for every pair a <= b of the boundary list
+template <class R> void roundtrip_uniform_real(char const *rname)
 {
   using base = typename rt<R>::base;
-  using P = fcppt::random::distribution::parameters::normal<R>;
-  static_assert(std::is_same_v<typename P::distribution, std::normal_distribution<base>>);
-  std::string const nm = std::string("normal<") + rname + "," + E::name + ">";
+  using P = fcppt::random::distribution::parameters::uniform_real<R>;
+  using SD = std::uniform_real_distribution<base>;
+  using D = fcppt::random::distribution::basic<P>;
+  std::string const nm = std::string("roundtrip<uniform_real<") + rname + ">>";
   char const *const fn = intern(nm);
-  std::vector<real_pair> const params = normal_params();
-  for (std::size_t k = 0; k < params.size(); ++k)
-  {
-    real_pair const &pr = params[k];
-    if (vrt::out_of_time())
-      return;
-    base const m = static_cast<base>(pr.x), s = static_cast<base>(pr.y);
-    real_pair const &prq = params[(k + 5) % params.size()]; // stored while drawing with per-call parameters
-    base const qm = static_cast<base>(prq.x), qs = static_cast<base>(prq.y);
-    for (u64 const seed : seeds())
+  std::vector<base> const values = real_boundary_values<base>();
+  for (base const a : values)
+    for (base const b : values)
     {
-      // normal_distribution keeps a second value between calls: reset() after an odd
-      // number of draws changes the sequence, so forwarding of reset() is visible
-      for (int reset_at : {-1, 1, 3})
-      {
-        if (!vrt::begin_text(fn, vrt::fmt("%s(mean=%.9g, stddev=%.9g, seed=%s%s)", nm.c_str(), static_cast<double>(m),
-                                          static_cast<double>(s), str128(static_cast<i128>(seed)).c_str(),
-                                          reset_at >= 0 ? vrt::fmt(", reset() after %d draws", reset_at).c_str() : "")))
-          continue;
-        vrt::nontrivial(true);
-        vrt::maybe_sample();
-        P const p{typename P::mean(rt<R>::wrap(m)), typename P::stddev(rt<R>::wrap(s))};
-        P const q{typename P::mean(rt<R>::wrap(qm)), typename P::stddev(rt<R>::wrap(qs))};
-        lockstep<E>(
-            nm, p, std::normal_distribution<base>(m, s), seed, false, m, s,
-            [&] {
-              return fcppt::random::distribution::basic<P>(typename P::mean(rt<R>::wrap(m)), typename P::stddev(rt<R>::wrap(s)));
-            },
-            q, std::normal_distribution<base>(qm, qs), qm, qs, reset_at);
-      }
+      if (!(a <= b))
+        continue;
+      if (!vrt::begin_text(fn, nm + "(min=" + show(a) + ", sup=" + show(b) + ")"))
+        continue;
+      vrt::nontrivial(a < b);
+      vrt::maybe_sample();
+      P const p{typename P::min(rt<R>::wrap(a)), typename P::sup(rt<R>::wrap(b))};
+      auto const sp = p.convert_from();
+      VRT_CHECK(same(sp.a(), a) && same(sp.b(), b), nm + ":convert_from", "convert_from gives [%s,%s)", show(sp.a()).c_str(),
+                show(sp.b()).c_str());
+      P const back(P::convert_to(SD(a, b)));
+      auto const sp2 = back.convert_from();
+      VRT_CHECK(same(sp2.a(), a) && same(sp2.b(), b), nm + ":convert_to", "convert_to(std).convert_from() gives [%s,%s)",
+                show(sp2.a()).c_str(), show(sp2.b()).c_str());
+      D d(p);
+      auto const sp3 = d.param().convert_from();
+      VRT_CHECK(same(sp3.a(), a) && same(sp3.b(), b) && same(d.distribution().a(), a) && same(d.distribution().b(), b),
+                nm + ":param_getter", "param() reports [%s,%s), wrapped distribution [%s,%s)", show(sp3.a()).c_str(),
+                show(sp3.b()).c_str(), show(d.distribution().a()).c_str(), show(d.distribution().b()).c_str());
+      D d2(P{typename P::min(rt<R>::wrap(base(0))), typename P::sup(rt<R>::wrap(base(1)))});
+      d2.param(p);
+      auto const sp4 = d2.param().convert_from();
+      VRT_CHECK(same(sp4.a(), a) && same(sp4.b(), b), nm + ":param_getter_after_set", "param() after param(set) reports [%s,%s)",
+                show(sp4.a()).c_str(), show(sp4.b()).c_str());
     }
-  }
+}
+
+template <class R> void real_shards(char const *rname, char const *shardname)
+{
+  std::string const t = rname;
+  vrt::shard(std::string("uniform_real/") + shardname + "/minstd_rand", [t] {
+    uniform_real_family<eng_minstd, R>(t.c_str());
+    // last: a round trip that trips an assertion of the std library for every value must not use up the
+    // restarts of the shard before the sequences were compared
+    roundtrip_uniform_real<R>(t.c_str());
+  });
+  vrt::shard(std::string("uniform_real/") + shardname + "/mt19937", [t] { uniform_real_family<eng_mt, R>(t.c_str()); });
 }
 }
 
 void c20::register_real()
 {
-  vrt::shard("uniform_real/minstd_rand", [] {
-    uniform_real_family<eng_minstd, double>("double");
-    uniform_real_family<eng_minstd, float>("float");
-    uniform_real_family<eng_minstd, st_double>("strong_typedef<double>");
-  });
-  vrt::shard("uniform_real/mt19937", [] {
-    uniform_real_family<eng_mt, double>("double");
-    uniform_real_family<eng_mt, float>("float");
-    uniform_real_family<eng_mt, st_double>("strong_typedef<double>");
-  });
-  vrt::shard("normal/minstd_rand", [] {
-    normal_family<eng_minstd, double>("double");
-    normal_family<eng_minstd, float>("float");
-    normal_family<eng_minstd, st_double>("strong_typedef<double>");
-  });
-  vrt::shard("normal/mt19937", [] {
-    normal_family<eng_mt, double>("double");
-    normal_family<eng_mt, float>("float");
-    normal_family<eng_mt, st_double>("strong_typedef<double>");
-  });
+  real_shards<double>("double", "double");
+  real_shards<float>("float", "float");
+  real_shards<long double>("long double", "long_double");
+  real_shards<st_double>("strong_typedef<double>", "st_double");
+  real_shards<st_ldouble>("strong_typedef<long double>", "st_long_double");
+  real_shards<ratio<double>>("ratio<double>(user transform)", "user_ratio_double");
+  real_shards<ratio<long double>>("ratio<long double>(user transform)", "user_ratio_long_double");
 }
